@@ -14,10 +14,12 @@
                                 that went back to its zero value is zero on the standby — whatever
                                 the old record was); nothing else but a full sync changes the
                                 standby's store
-   2  quiescent_convergence   : link streaming, nothing pending, nothing in the stream =>
-                                standby store = active store
-   3  no_change_lost_connected: while the stream is connected no pushed change is refused (queue
-                                full) or dropped (client channel full)
+   2  quiescent_convergence   : link streaming, nothing pending, nothing in the standby's current
+                                stream => standby store = active store
+   3  no_change_lost_connected: while the stream is connected (from the instant the standby sees
+                                it connected: the first flush) no pushed change is refused (queue
+                                full) or fails to enter the standby's stream (channel full, or the
+                                stream not / no longer registered on the active)
    9  malformed observation *)
 From Coq Require Import NArith List Bool.
 From Verif Require Import Model.HaSync.
@@ -37,8 +39,9 @@ Definition snext (ss : sstate) (o : op) (ob : out) : sstate :=
   let q := match o, o_res ob with
            | _, RBcast m BQueued => s_q ss ++ [m]
            | _, RDeliver _ => tl (s_q ss)
-           | Attach, RNone => []
+           | Attach, RNone => [MHb 0]      (* the initial heartbeat, in the handler's hands *)
            | Disconnect, RNone => []
+           | Drop, RNone => []
            | Restart, _ => []
            | _, _ => s_q ss
            end in
@@ -61,11 +64,13 @@ Definition v1 (ss : sstate) (o : op) (ob : out) : bool :=
   | _, _ => negb (teqb (o_sby ob) (s_sby ss))
   end.
 
-Definition v2 (ob : out) : bool :=
+(* [qempty]: nothing is on its way in the standby's current stream *)
+Definition v2 (qempty : bool) (ob : out) : bool :=
   match o_lnk ob with
-  | LStreaming => (o_plen ob =? 0) && (o_qlen ob =? 0) && negb (teqb (o_sby ob) (o_act ob))
+  | LStreaming => (o_plen ob =? 0) && qempty && negb (teqb (o_sby ob) (o_act ob))
   | _ => false
   end.
+Definition nilb {A} (l : list A) : bool := match l with [] => true | _ => false end.
 
 Definition v3 (ss : sstate) (ob : out) : bool :=
   match s_lnk ss, o_res ob with
@@ -85,12 +90,15 @@ Definition v9 (o : op) (ob : out) : bool :=
   | Attach, RNone | Attach, RSkip => false
   | Deliver, RDeliver _ | Deliver, RSkip => false
   | Disconnect, RNone | Disconnect, RSkip => false
+  | Drop, RNone | Drop, RSkip => false
+  | Reap, RNone | Reap, RSkip => false
   | _, _ => true
   end.
 
 Definition flag (b : bool) (k : N) : list N := if b then [k] else [].
 Definition viol (ss : sstate) (o : op) (ob : out) : list N :=
-  flag (v0 o ob) 0 ++ flag (v1 ss o ob) 1 ++ flag (v2 ob) 2 ++ flag (v3 ss ob) 3 ++ flag (v9 o ob) 9.
+  flag (v0 o ob) 0 ++ flag (v1 ss o ob) 1 ++ flag (v2 (nilb (s_q (snext ss o ob))) ob) 2
+  ++ flag (v3 ss ob) 3 ++ flag (v9 o ob) 9.
 
 Definition accept_m (m : N -> bool) (ss : sstate) (o : op) (ob : out) : sstate + N :=
   match filter m (viol ss o ob) with
